@@ -37,6 +37,16 @@ pub type Op = Operation<Ext>;
 type Prune = LogPrune<SqliteStore, LogPruneArgs<VerifyingKey, String, u32>, String, Ext>;
 
 
+/// Records a violation; further violations of the same (property, signature) are only counted
+/// (one replayable case per failure class, and rare classes are not crowded out of the result).
+fn viol(out: &mut Outcome, property: &str, signature: &str, detail: String, case: Value) {
+    if out.violations.iter().any(|v| v.property == property && v.signature == signature) {
+        out.violations_total += 1;
+    } else {
+        out.violation(property, signature, detail, case);
+    }
+}
+
 /// Vacuity guard: `--require a,b` makes a run without a single occurrence of counter a or b a tool error.
 fn require_counters(out: &Outcome, args: &Args) {
     if let Some(req) = args.extra.get("require") {
@@ -604,11 +614,11 @@ fn replay(args: &Args) {
         match r {
             Ok(Ok(())) => {}
             Ok(Err(e)) => {
-                out.violation("*", "store-error", format!("store / harness error: {e}"), b.clone());
+                viol(&mut out, "*", "store-error", format!("store / harness error: {e}"), b.clone());
                 imp = None; // a transaction may be left open: start from a fresh store
             }
             Err(p) => {
-                out.violation("*", "panic", format!("the code under test panicked: {p}"), b.clone());
+                viol(&mut out, "*", "panic", format!("the code under test panicked: {p}"), b.clone());
                 imp = None;
             }
         }
@@ -619,7 +629,7 @@ fn replay(args: &Args) {
 
 fn report(out: &mut Outcome, findings: Vec<Finding>, b: &Value, step: usize) {
     for (prop, sig, detail) in findings {
-        out.violation(prop, &sig, format!("step {step}: {detail}"), b.clone());
+        viol(out, prop, &sig, format!("step {step}: {detail}"), b.clone());
     }
 }
 
@@ -935,7 +945,7 @@ async fn expansion(imp: &Impl, world: &mut World, p: &Pending, cur: &BTreeSet<Ro
         let rows_after = imp.total_rows().await?;
         let has = imp.has(&m.hash).await?;
         if res != Res::Rejected || rows_after != rows_before || has != had {
-            out.violation(
+            viol(out, 
                 "C01",
                 "tampered-operation-accepted",
                 format!("step {si}: mutation `{name}` of the valid operation {} : ingest returned {}, rows {} -> {}, has_operation(mutant) {} -> {}", p.info.key, res.name(), rows_before, rows_after, had, has),
@@ -947,7 +957,7 @@ async fn expansion(imp: &Impl, world: &mut World, p: &Pending, cur: &BTreeSet<Ro
     // nothing moved: the full projection is what it was
     let after = imp.project(world, authors, logs).await?;
     if &after != cur {
-        out.violation("C01", "rejected-operation-changed-store".into(), format!("step {si}: the store changed during the rejected mutations of {}", p.info.key), json!({"behaviour": b, "step": si}));
+        viol(out, "C01", "rejected-operation-changed-store".into(), format!("step {si}: the store changed during the rejected mutations of {}", p.info.key), json!({"behaviour": b, "step": si}));
     }
     Ok(())
 }
@@ -1013,11 +1023,11 @@ fn record(args: &Args) {
         match r {
             Ok(Ok(())) => {}
             Ok(Err(e)) => {
-                out.violation("*", "store-error", format!("store / harness error: {e}"), json!({"run": run, "seed": seed.to_string()}));
+                viol(&mut out, "*", "store-error", format!("store / harness error: {e}"), json!({"run": run, "seed": seed.to_string()}));
                 imp = None;
             }
             Err(p) => {
-                out.violation("*", "panic", format!("the code under test panicked: {p}"), json!({"run": run, "seed": seed.to_string()}));
+                viol(&mut out, "*", "panic", format!("the code under test panicked: {p}"), json!({"run": run, "seed": seed.to_string()}));
                 imp = None;
             }
         }
@@ -1164,10 +1174,10 @@ async fn record_one(imp: &Impl, run: usize, seed: u64, trace: &mut TraceWriter, 
                 out.mark_distinct(format!("{run}:{}:{}", p.info.key, res.name()));
             }
             for (prop, sig, detail) in judge.after_ingest(&p.info, &p.cls, &p.op, res, &cur, &after, has) {
-                out.violation(prop, &sig, detail, case.clone());
+                viol(out, prop, &sig, detail, case.clone());
             }
             if after.len() as i64 != imp.total_rows().await? {
-                out.violation("C01", "stray-rows", "operations_v1 holds rows that are not reachable through the known logs".into(), case.clone());
+                viol(out, "C01", "stray-rows", "operations_v1 holds rows that are not reachable through the known logs".into(), case.clone());
             }
             trace.event(json!({"ev": "Ingest", "res": res.name(), "a": p.info.a, "l": p.info.l, "log": log_scalars(&after, &p.info.a, &p.info.l)}));
             cur = after;
@@ -1180,7 +1190,7 @@ async fn record_one(imp: &Impl, run: usize, seed: u64, trace: &mut TraceWriter, 
             let got = imp.log_prune(args).await?;
             let after = imp.project(&world, &authors, &logs).await?;
             for (prop, sig, detail) in judge.after_prune(&p.info, res, &cur, &after) {
-                out.violation(prop, &sig, detail, case.clone());
+                viol(out, prop, &sig, detail, case.clone());
             }
             if got.unwrap_or(0) > 0 {
                 out.count("prune:deleted");
